@@ -6,6 +6,8 @@ import json
 import logging
 import os
 import sys
+import threading
+import time
 
 VERIF_DIR = os.path.dirname(os.path.dirname(os.path.abspath(__file__)))
 REPO = os.environ.get("VF_REPO", "/repo")
@@ -50,7 +52,19 @@ class BudgetExceeded(BaseException):
     own `except Exception` wrappers do not swallow it."""
 
 
+class StallInterrupt(BaseException):
+    """Injected into the monitored thread by the stall watchdog (see Budget.run)."""
+
+
+STALL_SECONDS = 5.0
+
+
 class Budget:
+    """Two monitors. The cheap one counts PY_START events of library code and raises at the limit. A loop that never
+    calls a Python function is invisible to it, so a watchdog thread interrupts a call that has been running for
+    STALL_SECONDS and the call is then repeated under the precise monitor, which also counts JUMP events (one per loop
+    iteration): the verdict 'budget' is always a logical count, never the clock."""
+
     def __init__(self):
         self.M = sys.monitoring
         self.tool = None
@@ -65,7 +79,16 @@ class Budget:
         self.n = 0
         self.limit = None
         self.calls = 0
+        self.stalls = 0            # calls interrupted by the watchdog
+        self.stalls_confirmed = 0  # ... that then exceeded the precise (jump-counting) budget
         self.M.register_callback(self.tool, self.M.events.PY_START, self._on_start)
+        self.M.register_callback(self.tool, self.M.events.JUMP, self._on_jump)
+        self._lock = threading.Lock()
+        self._active_since = None
+        self._fired = False
+        self._tid = threading.get_ident()
+        self._watchdog = threading.Thread(target=self._watch, daemon=True, name="vf-stall-watchdog")
+        self._watchdog.start()
 
     def _on_start(self, code, offset):
         if not code.co_filename.startswith(self.prefix):
@@ -75,18 +98,48 @@ class Budget:
             self.limit = None
             raise BudgetExceeded()
 
-    def run(self, fn, limit):
-        """Run fn() under the budget. Returns ('ok', value) | ('budget', None) |
-        ('exc', exception). self.n holds the work count afterwards."""
+    def _on_jump(self, code, offset, dest):
+        if not code.co_filename.startswith(self.prefix):
+            return self.M.DISABLE
+        self.n += 1
+        if self.limit is not None and self.n > self.limit:
+            self.limit = None
+            raise BudgetExceeded()
+
+    def _watch(self):
+        import ctypes
+
+        while True:
+            time.sleep(0.5)
+            with self._lock:
+                t0 = self._active_since
+                if t0 is not None and not self._fired and time.monotonic() - t0 > STALL_SECONDS:
+                    self._fired = True
+                    ctypes.pythonapi.PyThreadState_SetAsyncExc(ctypes.c_ulong(self._tid), ctypes.py_object(StallInterrupt))
+
+    def _disarm(self):
+        import ctypes
+
+        with self._lock:
+            self._active_since = None
+            if self._fired:
+                # an interrupt that was requested but not delivered yet must not surface later
+                ctypes.pythonapi.PyThreadState_SetAsyncExc(ctypes.c_ulong(self._tid), None)
+
+    def _attempt(self, fn, limit, events, watchdog=True):
         self.n = 0
         self.limit = limit
-        self.calls += 1
-        self.M.set_events(self.tool, self.M.events.PY_START)
+        with self._lock:
+            self._fired = False
+            self._active_since = time.monotonic() if watchdog and threading.get_ident() == self._tid else None
+        self.M.set_events(self.tool, events)
         try:
             try:
                 return ("ok", fn())
             except BudgetExceeded:
                 return ("budget", None)
+            except StallInterrupt:
+                return ("stall", None)
             except RecursionError as e:
                 return ("exc", e)
             except Exception as e:
@@ -94,6 +147,29 @@ class Budget:
         finally:
             self.limit = None
             self.M.set_events(self.tool, 0)
+            try:
+                self._disarm()
+            except StallInterrupt:
+                pass
+
+    def run(self, fn, limit):
+        """Run fn() under the budget. Returns ('ok', value) | ('budget', None) |
+        ('exc', exception). self.n holds the work count afterwards."""
+        self.calls += 1
+        try:
+            r = self._attempt(fn, limit, self.M.events.PY_START)
+        except StallInterrupt:
+            r = ("stall", None)
+        if r[0] != "stall":
+            return r
+        self.stalls += 1
+        # precise re-run: function starts + loop iterations, 20 per budgeted function start (at most 50 million); no
+        # watchdog here - the count decides. (A call stuck inside C code makes no countable progress: the shard is then
+        # killed by the driver and the run is inconclusive.)
+        r = self._attempt(fn, min(limit * 20, 50_000_000), self.M.events.PY_START | self.M.events.JUMP, watchdog=False)
+        if r[0] == "budget":
+            self.stalls_confirmed += 1
+        return r
 
 
 _budget = None
